@@ -43,3 +43,6 @@ claim("C19", "Fault enumeration at the module boundary: every external-module ca
       "block is made to fail once (decorated keepers installed from outside the repository), outcomes compared with the fault-free run; plus the never-errors "
       "monitor over all generated worlds.", "fault injection at decorated keeper boundary, exhaustive over the call sites of each examined block + runtime monitor",
       "2/C19", category="fault_enumeration")
+claim("C11", "Per-block monitor of every stopped consumer: no updates computed or sent, retained state compared key by key until the removal time, removal exactly in the "
+      "first block at/after stop+unbonding, complete deletion of the enumerated state categories, channel closed.",
+      "online store-diff monitor with shadow of stop times (virtual-time deadlines)", "2/C11")
